@@ -161,6 +161,42 @@ static int do_xw(char *args)
 	return 0;
 }
 
+/* non-default but valid compressor options, selected by sel (0 = defaults) */
+static void vary_cfg(sqfs_compressor_config_t *cfg, int sel)
+{
+	if (sel <= 0)
+		return;
+	switch (cfg->id) {
+	case SQFS_COMP_GZIP:
+		cfg->level = 1 + sel % 9;
+		cfg->opt.gzip.window_size = 9 + (sel / 9) % 7;
+		if ((sel / 63) % 2)
+			cfg->flags |= (sel / 126) % 0x20;
+		break;
+	case SQFS_COMP_XZ:
+	case SQFS_COMP_LZMA:
+		cfg->level = sel % 10;
+		cfg->opt.xz.lc = (sel / 10) % 5;
+		cfg->opt.xz.lp = (sel / 50) % (5 - cfg->opt.xz.lc);
+		cfg->opt.xz.pb = (sel / 250) % 5;
+		cfg->opt.xz.dict_size = 8192u << ((sel / 1250) % 4);
+		if (cfg->id == SQFS_COMP_XZ)
+			cfg->flags |= (sel / 5000) % 2 ? SQFS_COMP_FLAG_XZ_X86 : ((sel / 10000) % 2 ? SQFS_COMP_FLAG_XZ_EXTREME : 0);
+		else if ((sel / 5000) % 2)
+			cfg->flags |= SQFS_COMP_FLAG_LZMA_EXTREME;
+		break;
+	case SQFS_COMP_LZ4:
+		if (sel % 2)
+			cfg->flags |= SQFS_COMP_FLAG_LZ4_HC;
+		break;
+	case SQFS_COMP_ZSTD:
+		cfg->level = 1 + sel % 22;
+		break;
+	default:
+		break;
+	}
+}
+
 static int do_cz(char *args)
 {
 	int id, level, order;
@@ -177,10 +213,13 @@ static int do_cz(char *args)
 		size = 4096;
 	if (sqfs_compressor_config_init(&cfg, id, 65536, 0) != 0)
 		return 0;
-	(void)level;
-	if (sqfs_compressor_create(&cfg, &c1) != 0)
+	vary_cfg(&cfg, level);
+	if (sqfs_compressor_create(&cfg, &c1) != 0) {
+		printf("SKIP compressor %d rejects option set %d\n", id, level);
 		return 0;
+	}
 	sqfs_compressor_config_init(&ucfg, id, 65536, SQFS_COMP_FLAG_UNCOMPRESS);
+	vary_cfg(&ucfg, level);
 	if (sqfs_compressor_create(&ucfg, &u1) != 0) {
 		sqfs_drop(c1);
 		return 0;
@@ -197,6 +236,19 @@ static int do_cz(char *args)
 	if (c2 == NULL || u2 == NULL) {
 		printf("MISMATCH compressor %d cannot be copied\n", id);
 		return 3;
+	}
+	{
+		/* the copy reports the configuration of the original */
+		sqfs_compressor_config_t g1, g2;
+		memset(&g1, 0, sizeof(g1));
+		memset(&g2, 0, sizeof(g2));
+		c1->get_configuration(c1, &g1);
+		c2->get_configuration(c2, &g2);
+		if (g1.id != g2.id || g1.flags != g2.flags || g1.block_size != g2.block_size || g1.level != g2.level ||
+		    memcmp(&g1.opt, &g2.opt, sizeof(g1.opt)) != 0) {
+			printf("MISMATCH compressor %d (options %d): the copy reports a different configuration\n", id, level);
+			return 3;
+		}
 	}
 	r1 = c1->do_block(c1, in, size, o1, size);
 	r2 = c2->do_block(c2, in, size, o2, size);
